@@ -2,6 +2,9 @@
 //   dvx N A B k        N (new handle) = diag_vector(A*B + A, k)   A active rank 2, B rank 2 (active or passive)
 //   elg S A B : i.. : j..   S = A.get_rvalue(i)*B.get_rvalue(j)*A.get_rvalue(i)     (three Active temporaries)
 //   fxg S F i j        S = F.get_rvalue(i)*F.get_rvalue(j)        F an active FixedArray<double,true,4>
+//   outx <form> T a b [c|X]   outer_product(a,b) as a SUB-expression (the enclosing operation hands it a multiplier):
+//        sl c: T = c*outer   sr c: T = outer*c   neg: T = -outer   al X: T = X*outer   ar X: T = X - outer   (X rank 2)
+//        cadd|csub|cmul: T op= outer            fexp: T = exp(outer)
 #include "drv_arrayad.h"
 #include <type_traits>
 using namespace adept;
@@ -15,6 +18,10 @@ static bool parse_idx5(const Words& w, size_t from, std::vector<Index>& a, std::
   return true;
 }
 template <int R> static ExpressionSize<R> es(const std::vector<Index>& i) { ExpressionSize<R> e; for (int k = 0; k < R; ++k) e[k] = i[k]; return e; }
+
+// outer_product of two PASSIVE vectors as a sub-expression of an active statement does not compile in the unchanged library
+// (OuterProduct::value_at_location_store_ indexes a ScratchVector<0>): those combinations are not instantiated
+#define BOTH_PASSIVE(a, b) (!std::decay_t<decltype(a)>::is_active && !std::decay_t<decltype(b)>::is_active)
 
 int exec_s5(const Words& w, Ctx& c) {
   const std::string& k = w[0];
@@ -38,6 +45,37 @@ int exec_s5(const Words& w, Ctx& c) {
       default: asS(*S) = as<3, true>(*A).get_rvalue(es<3>(i)) * as<3, true>(*B).get_rvalue(es<3>(j)) * as<3, true>(*A).get_rvalue(es<3>(i)); break;
     }
     return 1;
+  }
+  if (k == "outx" && w.size() >= 5) {
+    const std::string& f = w[1];
+    Obj* T = getat(w[2], 2); Obj* A = geta(w[3], 1); Obj* B = geta(w[4], 1); if (!T || !A || !B) return -1;
+    auto& t = as<2, true>(*T);
+    if ((f == "sl" || f == "sr") && w.size() == 6) {
+      double cst = atof(w[5].c_str());
+      c.pre({T, A, B});
+      return with<1>(A, [&](auto& a) { return with<1>(B, [&](auto& b) {
+        if constexpr (BOTH_PASSIVE(a, b)) return false; else {
+        if (f == "sl") t = cst * outer_product(a, b); else t = outer_product(a, b) * cst; return true; } }); }) ? 1 : -1;
+    }
+    if ((f == "neg" || f == "cadd" || f == "csub" || f == "cmul" || f == "fexp") && w.size() == 5) {
+      c.pre({T, A, B});
+      return with<1>(A, [&](auto& a) { return with<1>(B, [&](auto& b) {
+        if constexpr (BOTH_PASSIVE(a, b)) return false; else {
+        if (f == "neg") t = -outer_product(a, b);
+        else if (f == "cadd") t += outer_product(a, b);
+        else if (f == "csub") t -= outer_product(a, b);
+        else if (f == "cmul") t *= outer_product(a, b);
+        else t = exp(outer_product(a, b));
+        return true; } }); }) ? 1 : -1;
+    }
+    if ((f == "al" || f == "ar") && w.size() == 6) {
+      Obj* X = geta(w[5], 2); if (!X) return -1;
+      c.pre({T, A, B, X});
+      return with<1>(A, [&](auto& a) { return with<1>(B, [&](auto& b) { return with<2>(X, [&](auto& x) {
+        if constexpr (BOTH_PASSIVE(a, b)) return false; else {
+        if (f == "al") t = x * outer_product(a, b); else t = x - outer_product(a, b); return true; } }); }); }) ? 1 : -1;
+    }
+    return -1;
   }
   if (k == "fxg" && w.size() == 5) {
     Obj* S = getk(w[1], K_SCAL); Obj* F = getk(w[2], K_FA4); int i = atoi(w[3].c_str()), j = atoi(w[4].c_str());
